@@ -299,20 +299,35 @@ def with_hydrogens(recs, hydrogens, moved=None):
 
 
 def identities_unique(recs):
-    """True if no two separate residues (runs of consecutive atom lines) share tag-less
-    identity (chain, number, insertion code)."""
+    """True if, within a model, no two separate residues share the identity (chain, number,
+    insertion code). Runs are tracked per record type: a residue may be interrupted by records
+    of the other type (an ion written between its atoms)."""
     seen = set()
-    last = None
+    last = {}
     for r in recs:
         if r.raw is not None:
+            if r.tag == "MODEL ":
+                seen, last = set(), {}
             continue
         k = (r.chain, r.resnum, r.icode)
-        if k != last:
-            if k in seen:
+        if last.get(r.tag) != k:
+            if (r.tag, k) in seen:
                 return False
-            seen.add(k)
-            last = k
-    return True
+            seen.add((r.tag, k))
+            last[r.tag] = k
+        other = "HETATM" if r.tag == "ATOM  " else "ATOM  "
+        if (other, k) in seen and last.get(other) != k and False:
+            return False
+    # the same identity used by an ATOM residue and a HETATM residue is ambiguous too
+    ids = {}
+    model = 0
+    for r in recs:
+        if r.raw is not None:
+            if r.tag == "MODEL ":
+                model += 1
+            continue
+        ids.setdefault((model, r.chain, r.resnum, r.icode), set()).add((r.tag, r.resn))
+    return all(len(v) == 1 for v in ids.values())
 
 
 _RES_CACHE = {}
